@@ -5,6 +5,7 @@ package main
 // hangs and crashes are handled by the parent (deadline, restart).
 
 import (
+	"sync/atomic"
 	"bufio"
 	"fmt"
 	"net/http/httptest"
@@ -244,6 +245,20 @@ func register(ty, name string, fid int) error {
 		}
 		return textwire.RegisterStrFunc(name, func(s string, args ...any) string { return "const" })
 	case "arr":
+		if fid == 2 {
+			// edits the slice it was given in place and returns that same slice
+			return textwire.RegisterArrFunc(name, func(a []any, args ...any) []any {
+				if len(args) == 0 {
+					return a
+				}
+				for i := range a {
+					if descOf(a[i]) == descOf(args[0]) {
+						a[i] = "***"
+					}
+				}
+				return a
+			})
+		}
 		if fid == 0 {
 			return textwire.RegisterArrFunc(name, func(a []any, args ...any) []any {
 				out := append([]any{}, a...)
@@ -393,6 +408,8 @@ func implOp(op *term, tpl **textwire.Template, cwd string) string {
 // implConc: fields after cwd and fs: G, rounds, gomaxprocs, then the operations. Operations
 // before the marker "--" are set-up (NewTemplate, Register*) and run once; the others are run
 // sequentially for a baseline and then by G goroutines at the same time.
+var coldBatch int64
+
 func implConc(cwd string, fsT *term, f []string, home string) string {
 	G, _ := strconv.Atoi(f[0])
 	rounds, _ := strconv.Atoi(f[1])
@@ -425,6 +442,47 @@ func implConc(cwd string, fsT *term, f []string, home string) string {
 	var work []*term
 	for i++; i < len(ops); i++ {
 		work = append(work, parseTerm(ops[i]))
+	}
+	// cold phase, before anything was rendered sequentially: every goroutine converts struct types
+	// that this process has never seen (whatever the conversion remembers per type is built concurrently)
+	{
+		coldErr := make(chan string, G)
+		coldDone := make(chan struct{})
+		batch := atomic.AddInt64(&coldBatch, 1)
+		for gI := 0; gI < G; gI++ {
+			go func(gI int) {
+				defer func() { coldDone <- struct{}{} }()
+				for r := 0; r < 12; r++ {
+					st := reflect.New(reflect.StructOf([]reflect.StructField{
+						{Name: "V", Type: reflect.TypeOf(0)},
+						{Name: fmt.Sprintf("X%d_%d_%d", batch, gI, r), Type: reflect.TypeOf("")},
+					})).Elem()
+					st.Field(0).SetInt(int64(7 + r))
+					got := safely(func() string {
+						out, err := textwire.EvaluateString("{{ d.v }}|{{ d }}", map[string]any{"d": st.Interface()})
+						if err != nil {
+							return "ERR " + err.Error()
+						}
+						return out
+					})
+					if !strings.HasPrefix(got, strconv.Itoa(7+r)+"|") {
+						select {
+						case coldErr <- got:
+						default:
+						}
+						return
+					}
+				}
+			}(gI)
+		}
+		for gI := 0; gI < G; gI++ {
+			<-coldDone
+		}
+		select {
+		case e := <-coldErr:
+			return "CONC mismatch in the cold phase (first renders of new struct types): " + e
+		default:
+		}
 	}
 	base := make([]string, len(work))
 	for k, w := range work {
